@@ -298,15 +298,14 @@ def tlc_validate_records(module, cfg, recfile, nrecs, chunk=500, workers=None, t
     if res.error:
         raise Infra("record validation %s: %s" % (module, res.error))
     bad, checked = [], 0
-    for line in res.out.split("\n"):
-        line = line.strip()
-        m = re.match(r'<<"BADREC", (\d+), (.*)>>$', line)
-        if m:
-            bad.append((int(m.group(1)), m.group(2)))
-            continue
-        m = re.match(r'<<"CHECKED", (\d+), (\d+)>>$', line)
-        if m:
-            checked += int(m.group(2)) - int(m.group(1)) + 1
+    # TLC pretty-prints a long tuple over several lines: parse the whole output, not line by line
+    for m in re.finditer(r'<<\s*"BADREC",\s*(\d+),\s*("(?:[^"\\\\]|\\\\.)*")(?:,\s*(\d+))?\s*>>', res.out, re.S):
+        why = m.group(2) + (", " + m.group(3) if m.group(3) else "")
+        bad.append((int(m.group(1)), why))
+    for m in re.finditer(r'<<\s*"CHECKED",\s*(\d+),\s*(\d+)\s*>>', res.out, re.S):
+        checked += int(m.group(2)) - int(m.group(1)) + 1
+    if len(bad) != len(re.findall(r'"BADREC"', res.out)):
+        raise Infra("record validation %s: could not parse every BADREC line of TLC's output" % module)
     if checked != nrecs:
         raise Infra("record validation %s: TLC looked at %d of %d records\n%s" % (module, checked, nrecs, res.out[-2000:]))
     bad.sort()
